@@ -26,6 +26,14 @@ model deliberately gives a default (a read of such a variable while unbound woul
 Python; the linking theorem's hand model must guard it).
 A read of an `option` variable where its content is needed is a checked unwrap (Err 99 = TypeError on None).
 Every variable's type is declared in cfg["vars"]; an undeclared variable is refused.
+
+Additions for stateful callees (retrospective wrappers / smoothers; all fail closed):
+  cfg["state_calls"]   [(pattern, [state variables], template, value type, {hole: type})]: an assignment
+               `x = <pattern>` whose right-hand side both returns a value and updates state the Python text does not
+               show (the recorded rng / heappop answers consumed so far, a heap): the template denotes a
+               `result (T * S1 * ... * Sn)` and the statement becomes `dor (x, s1, ..., sn) <- template;` - it may raise.
+  cfg["return_state"]  [state variables]: every `return e` returns `(e, s1, ..., sn)`, the function's type is
+               `result (T * S1 * ... * Sn)` (the state the caller goes on with, e.g. the unread answers).
 """
 import ast
 
@@ -112,6 +120,9 @@ class Tr:
         self.effects = [(pat(p), var, tmpl) for p, var, tmpl in cfg.get("effects", [])]
         self.effect_calls = [(pat(p), var, st_t, val_t, parse_type(ty)) for p, var, st_t, val_t, ty in cfg.get("effect_calls", [])]
         self.eqb = cfg.get("eqb", {})
+        self.state_calls = [(pat(x[0]), list(x[1]), x[2], parse_type(x[3]), {h: parse_type(t) for h, t in (x[4] if len(x) > 4 else {}).items()})
+                            for x in cfg.get("state_calls", [])]
+        self.return_state = list(cfg.get("return_state", []))
         self.raises = list(cfg.get("raises", []))  # [(substring of unparse(raise stmt), tag)]
         self.fresh = 0
         self.ret_type = parse_type(cfg["returns"])
@@ -332,6 +343,10 @@ class Tr:
             if self.is_ignored(st):
                 continue
             if isinstance(st, ast.Assign):
+                for patn, svars, _t, _v, _a in self.state_calls:
+                    if self.unify(patn, st.value, {}):
+                        for n in svars:
+                            add(n)
                 for t in st.targets:
                     for n in ([t] if isinstance(t, ast.Name) else t.elts if isinstance(t, ast.Tuple) else []):
                         if isinstance(n, ast.Name):
@@ -424,6 +439,14 @@ class Tr:
                     raise Unsupported("raise template needs a variable that is not bound here: %s" % e)
         raise Unsupported("raise without a declared tag: " + txt[:100])
 
+    def bind_pat(self, names):
+        """a tuple pattern in the binder position of the monad's bind notation: Lib/Sexp's `dor x <- e; k` declares
+        `x pattern`, where a tuple is written without the quote that a `fun` binder needs"""
+        p = tuple_pat(names)
+        if p.startswith("'(") and self.M.get("bind_quote", "" if self.M["bind"] == "dor" else "'") == "":
+            return p[1:]
+        return p
+
     def bind_hoist(self, hoist, body, ind):
         out = ""
         for n, t in hoist:
@@ -443,6 +466,19 @@ class Tr:
             if len(st.targets) != 1:
                 raise Unsupported("multiple assignment: " + ast.unparse(st))
             tgt = st.targets[0]
+            for patn, svars, tmpl, vty, argtys in self.state_calls:
+                binds = {}
+                if isinstance(tgt, ast.Name) and self.unify(patn, st.value, binds):
+                    if any(v not in env or env[v] == ("unit",) for v in svars) or self.var_type(tgt.id) != vty:
+                        raise Unsupported("state call: " + ast.unparse(st))
+                    args = {}
+                    for kk, v in binds.items():
+                        a, at = self.expr(v, env, hoist)
+                        args[kk[2:]] = self.need(a, at, argtys[kk[2:]], hoist) if kk[2:] in argtys else a
+                    env2 = dict(env)
+                    env2[tgt.id] = vty
+                    txt = "%s%s %s <- %s;\n" % (ind, self.M["bind"], self.bind_pat([tgt.id] + svars), tmpl.format(**args))
+                    return self.bind_hoist(hoist, txt, ind) + self.block(rest, env2, k, ind)
             for patn, var, st_t, val_t, vty in self.effect_calls:
                 binds = {}
                 if isinstance(tgt, ast.Name) and self.unify(patn, st.value, binds):
@@ -534,7 +570,7 @@ class Tr:
             ret = lambda env2, jump=None: "%s    %s %s\n" % (ind, self.M["ok"], tuple_term(vs)) if jump is None else self.unsupported("jump in if")
             tb = self.block(st.body, env, ret, ind + "    ")
             te = self.block(st.orelse, env, ret, ind + "    ")
-            txt = "%s%s %s <- (if %s then\n%s%s  else\n%s%s  );\n" % (ind, self.M["bind"], tuple_pat(vs), c, tb, ind, te, ind)
+            txt = "%s%s %s <- (if %s then\n%s%s  else\n%s%s  );\n" % (ind, self.M["bind"], self.bind_pat(vs), c, tb, ind, te, ind)
             env_after = dict(env)
             for v in dropped:
                 txt += "%slet %s := tt in\n" % (ind, v)   # poison: a later read is a type error
@@ -660,7 +696,7 @@ class Tr:
         if len(carried) == 1:
             spat = "(%s : %s)" % (carried[0], coq_type(env[carried[0]]))
         txt = "%s%s %s <- %s (fun %s %s =>\n%s%s%s  ) %s %s;\n" % (
-            ind, self.M["bind"], tuple_pat(carried), self.M["fold"], spat, xpat, pre, body, ind, xs, tuple_term(carried))
+            ind, self.M["bind"], self.bind_pat(carried), self.M["fold"], spat, xpat, pre, body, ind, xs, tuple_term(carried))
         env_after = dict(env)
         for v in dropped:
             txt += "%slet %s := tt in\n" % (ind, v)   # poison: a later read is a type error
@@ -689,14 +725,23 @@ class Tr:
             pre += "%slet %s : %s := %s in\n" % (ind, n, coq_type(env[n]), v)
 
         def kfun(env2, jump=None):
+            if isinstance(jump, tuple) and jump[0] == "return" and self.return_state:
+                if any(v not in env2 or env2[v] == ("unit",) for v in self.return_state):
+                    raise Unsupported("return_state variable not bound at a return")
+                return "%s  %s (%s)\n" % (ind, self.M["ok"], ", ".join([jump[1]] + self.return_state))
             if isinstance(jump, tuple) and jump[0] == "return":
                 return "%s  %s %s\n" % (ind, self.M["ok"], jump[1])
             if jump is None and cfg.get("implicit_return") is not None:
                 return "%s  %s %s\n" % (ind, self.M["ok"], cfg["implicit_return"].format(**{v[:-len(SUFFIX)]: v for v in env2 if v.endswith(SUFFIX)}))
             raise Unsupported("function may end without a return" if jump is None else "continue outside a loop")
 
+        rtype = coq_type(self.ret_type)
+        if self.return_state:
+            if cfg.get("implicit_return") is not None or any(v not in env for v in self.return_state):
+                raise Unsupported("return_state needs declared state parameters and explicit returns")
+            rtype = "(%s)" % " * ".join([rtype] + [coq_type(env[v]) for v in self.return_state])
         body = self.block(list(f.body), env, kfun, ind)
-        return "Definition %s %s : %s %s :=\n%s%s." % (cfg["name"], " ".join(params), self.M["type"], coq_type(self.ret_type), pre, body.rstrip("\n"))
+        return "Definition %s %s : %s %s :=\n%s%s." % (cfg["name"], " ".join(params), self.M["type"], rtype, pre, body.rstrip("\n"))
 
 
 def find_function(tree, name, cls=None):
